@@ -31,6 +31,7 @@ def _fixed_inits():
         mk(both('meld'), both('meld'), attrs_repo='nbdime-diff-nonl', attrs_global='nbdime-merge-nl', extras=True),
         mk(both('nbdime'), both('nbdime'), attrs_repo='nbdime-both', attrs_global='nbdime-both', drivers_repo=True, drivers_global=True),
         mk({'merge.tool': 'nbdime'}, {'merge.tool': 'meld'}, attrs_global='rules-nonl', loc='corefile'),
+        mk(attrs_global='rules-nl', loc='corefile+stale'), mk(attrs_global='absent', loc='corefile+stale'),
         mk({'diff.guitool': 'nbdime'}, {'diff.guitool': 'meld'}, attrs_repo='empty', attrs_global='nbdime-oneline', loc='corefile', extras=True),
         mk({'merge.tool': 'meld', 'diff.guitool': 'nbdime'}, {'merge.tool': 'nbdime', 'diff.guitool': 'meld'},
            attrs_repo='nbdime-oneline', attrs_global='empty', loc='xdg', drivers_global=True),
@@ -67,7 +68,7 @@ def build_jobs(tier, seed):
             for b, ag in enumerate(names):
                 i = W.random_init(rnd)
                 i['attrs'] = {'repo': ar, 'global': ag}
-                i['loc'] = W.LOCS[(a + b) % 3]      # every global variant meets every location
+                i['loc'] = W.LOCS[(a + b) % len(W.LOCS)]      # every global variant meets every location
                 inits.append(i)
         inits += [W.random_init(rnd) for _ in range(4)]
         exact = True
